@@ -10,6 +10,8 @@ assignment (also through private helpers).  Full reachability equivalence relies
 Round 4: _attach/_detach as one flat loop over `[self] + all descendants`; rejections of the parent setter precede unlink /
 _attach; WBS.__root is bound only in the constructor; the detach loop of the children setter is reached on every path (an early
 return is fine only when its condition means nobody can have been dropped); move / reorder put back every task they take out.
+Round 5: the snapshot of the old children may be filled by a loop; members_listed_once and the owner-set rule (shared with
+C05/C01) also run under C11.
 Not decided: a memoised all_children whose invalidation looks complete (UNDECIDED).
 """
 from __future__ import annotations
@@ -96,6 +98,19 @@ def check(ctx):
                "WBS.__root is bound once, in WBS.__init__: swapping in another root task drops every member from X.tasks without detaching "
                "it", floor=1)
     ctx.guarded(o, lambda o: root_fixed(ctx, o, eff))
+
+    o = ctx.ob('members_listed_once', 'R3',
+               "a task named twice in an argument is put into the child list once (shared rule with C05): a task listed twice survives "
+               "a later remove / move with one entry and stays reachable while it reports no or another owner", floor=1)
+    ctx.guarded(o, lambda o: __import__('rules.c05_util', fromlist=['listed_once']).listed_once(ctx, o))
+
+    o = ctx.ob('relation_state_owner_set', 'R1',
+               "parent/children state and the list shared with the children facade are written only inside the owner set (shared rule with "
+               "C01/C05): a facade method that writes the shared list itself and adopts afterwards leaves a refused task listed", floor=20)
+
+    def _own(o):
+        c01.own(ctx, o, eff)
+    ctx.guarded(o, _own)
 
     o = ctx.ob('removal_paths_delegate', 'R8',
                "list removal, remove_all, WBS.remove / remove_all and roots assignment all end in a children assignment on the owning task", floor=4)
@@ -379,6 +394,13 @@ def detach_paired(ctx, o):
                 break
             ds, hops = nxt, hops + 1
         copy_ok = len(ds) == 1 and _is_children_copy(ds[0].value, s)
+        if not copy_ok and len(ds) == 1 and isinstance(ds[0].value, ast.List) and not ds[0].value.elts:
+            # `old = []` filled by `for c in self.__children: ..; old.append(c)`: the same snapshot, spelled as a loop
+            acc = facts.accumulated_list(f, ds[0].var)
+            if acc is not None and _is_children_copy(acc, s):
+                fill = [c for c in facts.collects(f) if c.kind == 'loop' and c.acc == ds[0].var]
+                if fill and (not clears or cfg.dominates(cfg.node_of(fill[0].node), cfg.node_containing(clears[0]))) and not fill[0].conds:
+                    copy_ok = True
         if not copy_ok and len(ds) == 1:
             # the snapshot may be taken by a private helper (`old = self.__release_children()`): follow it
             r = _snapshot_helper(prog, f, ds[0].value, s)
